@@ -45,4 +45,12 @@ theorem C15_tick_spec (s : Proto) :
 /-- `BROADCAST_ADDRESS` in `src/protocol.rs` is the model's -/
 theorem C15_src_broadcast : SrcTie.broadcastOk = true := by decide
 
+/-! non-vacuity (kernel-evaluated): device 5 with an own-address handler (token 0) and a capture-all handler (token 1)
+that transmits a packet to device 6; a packet for device 5 reaches both in id order, a packet for device 9 only the
+capture-all handler -/
+example :
+    ((((Proto.init 5 [.ok ⟨false, 5, [1]⟩, .ok ⟨false, 9, [2]⟩] []).add ⟨0, false, []⟩).1.add ⟨1, true, [⟨false, 6, [3]⟩]⟩).1.tick.1.tick.1.log) =
+    [.call 0 ⟨false, 5, [1]⟩, .call 1 ⟨false, 5, [1]⟩, .tx ⟨false, 6, [3]⟩ true, .call 1 ⟨false, 9, [2]⟩, .tx ⟨false, 6, [3]⟩ true] := by
+  decide
+
 end Ross.Props
